@@ -46,7 +46,14 @@ fi
 ids="C01 C02 C03 C04 C05 C06 C07 C08 C09 C12 C13 C14 C15 C16 C17 C18 C19 C20"
 case "$pid" in C10|C11) ids="$ids C10 C11";; esac
 for e in $extra; do case " $ids " in *" $e "*) ;; *) ids="$ids $e";; esac; done
-: > "$out/detection.txt"
+# SEED_ONLY_OWN=1: re-check with the target property's own check only (plus the extras); what the other checks
+# said at the last full run is kept in meta.json
+if [ -n "${SEED_ONLY_OWN:-}" ]; then ids="$pid"; for e in $extra; do ids="$ids $e"; done; fi
+if [ -n "${SEED_ONLY_OWN:-}" ] && [ -f "$out/detection.txt" ]; then
+  for id in $ids; do sed -i "/^$id /d" "$out/detection.txt"; done
+else
+  : > "$out/detection.txt"
+fi
 caught=""
 for id in $ids; do
   o=$(VERIF_REPO="$wt" "$D/run.sh" "$id" quick 2>&1); code=$?
@@ -57,9 +64,16 @@ for id in $ids; do
   [ "$nv" -gt 0 ] && caught="$caught $id"
 done
 [ -f "$src/meta.json" ] && cp "$src/meta.json" "$out/meta.agent.json" 2>/dev/null
-python3 - "$out/meta.agent.json" "$out/meta.json" "$pid" "$n" "$caught" "$suite" "$demo_with" "$demo_without" <<'PY'
+python3 - "$out/meta.agent.json" "$out/meta.json" "$pid" "$n" "$caught" "$suite" "$demo_with" "$demo_without" "${SEED_ONLY_OWN:+$ids}" <<'PY'
 import json,sys
-src,dst,pid,n,caught,suite,dw,dwo=sys.argv[1:9]
+src,dst,pid,n,caught,suite,dw,dwo,only=sys.argv[1:10]
+if only:
+    try:
+        old=json.load(open(dst)).get("caught_by",[])
+    except Exception:
+        old=[]
+    ran=only.split()
+    caught=" ".join(sorted(set([x for x in old if x not in ran])|set(caught.split())))
 try: m=json.load(open(src))
 except Exception as e: m={"note":"agent meta.json unreadable: %s"%e}
 m["breaks_property"]=pid
